@@ -96,7 +96,9 @@ def forest? : Nat → List String → Option (List Node)
     if rest.length < toks.length then pure (one ++ (← forest? fuel rest)) else none
 
 def mode? : String → Option Mode
-  | "ip" => some .ip | "newbot" => some .newbot | "tbot" => some .legacy | _ => none
+  | "ip" => some .ip | "newbot" => some .newbot | "tbot" => some .legacy
+  | "newbotk" => some .newbot   -- `newbot -k` with a kept-alive machine in use: the verdict rules are the same
+  | _ => none
 
 def case? (toks : List String) : Option Case :=
   match toks with
